@@ -432,7 +432,7 @@ def run_labels(c):
     except Exception as e:
         return {"py_fail": f"Variables.to_serializable round trip raised {type(e).__name__}: {e}", "features": feats}
     py_fail = None
-    if list(v2) != list(v) or len(v2) != len(labels):
+    if list(v2) != list(v) or len(v2) != len(v):   # Variables drops duplicate labels (2.5 and np.float32(2.5) are one label)
         py_fail = f"labels {labels!r} -> {list(v2)!r}"
     coq = f"(KLabels {clist([coq_lbl(l) for l in v])} {clist([coq_lbl(l, True) for l in ser])} {clist([coq_lbl(l) for l in back])})"
     return {"coq": coq, "py_fail": py_fail, "features": feats, "nontrivial": len(labels) > 0}
